@@ -402,6 +402,9 @@ def parse(stdout, stderr, parser: ArgumentParser, args: Namespace):
     def write_tree(tree: DerivationTree):
         json_str = derivation_tree_to_json(tree, args.pretty_print)
         if args.output_file:
+            assert_path_is_dir(
+                stderr, args.command, os.path.dirname(args.output_file) or "."
+            )
             with open(args.output_file, "w") as file:
                 file.write(json_str)
         else:
@@ -454,6 +457,9 @@ def repair(stdout, stderr, parser: ArgumentParser, args: Namespace):
 
     def write_result(tree: DerivationTree):
         if args.output_file:
+            assert_path_is_dir(
+                stderr, args.command, os.path.dirname(args.output_file) or "."
+            )
             with open(args.output_file, "w") as file:
                 file.write(str(tree))
         else:
@@ -505,6 +511,9 @@ def mutate(stdout, stderr, parser: ArgumentParser, args: Namespace):
     )
 
     if args.output_file:
+        assert_path_is_dir(
+            stderr, args.command, os.path.dirname(args.output_file) or "."
+        )
         with open(args.output_file, "w") as file:
             file.write(str(mutated))
     else:
